@@ -148,7 +148,8 @@ pub fn adapt_dft(c: &mut OpCase) {
             }
             // mask: !0 << t with t < digit width (what msb_mask_bottom_limb produces); fixed after the
             // digit width is final, see below
-            if c.q % 3 == 0 {
+            // (a third of the cases use no mask, independently of the prepared sizes that q % 9 selects)
+            if c.q / 9 % 3 == 0 {
                 c.p = !0i64;
             }
         }
